@@ -399,7 +399,20 @@ def apply_mutator(obj, s, st_, ctx):
         else:
             (a, b), (c_, d_), (e_, f_) = obj.domain
             obj.evaluate(start_u=a, stop_u=a + (b - a) * 0.5, start_v=c_ + (d_ - c_) * 0.25, stop_v=d_, start_w=e_, stop_w=e_ + (f_ - e_) * 0.75)
-        obj.evaluate()
+        if pd == 2 and s["n"] % 2:
+            # the mesh is a mesh of the whole surface, whatever part of it was sampled last
+            got, want = read_view(obj, "tess"), read_view(fresh(obj, norm), "tess")
+            ctx.check(_deep_eq(got, want), "stale-tess", "tessellation right after a partial evaluation differs from the mesh of a freshly built surface")
+        if s["k"] == 1:
+            # re-assigning the sampling density the shape already has asks for a new sampling, like any assignment of it
+            obj.delta = obj.delta
+        elif s["k"] == 2:
+            if pd == 1:
+                obj.sample_size = obj.sample_size
+            else:
+                obj.sample_size_u = obj.sample_size_u
+        else:
+            obj.evaluate()
         return obj, m
     if m == "convert_side":
         # a converted twin (B-spline <-> NURBS) is made and edited on the side; the history continues on the source
